@@ -650,7 +650,7 @@ def added_call_forms(case, rec, G, cls, ids, n, T, g, tag):
         a, b = tw
         ok = within_ln(g[[a]], g[[b]], 1e-12)
         rec.check(ok, 'permutation', f'{tag}/twin-members', f'members {a} and {b} of {ids} carry the same assignment {case["assigned"][ids[a]]["groups"]} but gamma = {g[a]!r} / {g[b]!r} (x={x.tolist()}, T={T})',
-                  residual=abs(g[a] / g[b] - 1) if ok else None)
+                  residual=(abs(float(g[a]) / float(g[b]) - 1) if ok and g[b] not in (0.0, float('inf')) and g[b] == g[b] else None))      # (both may have under- or overflowed alike)
         rec.hit('twin-members')
     # (7c) the same temperature as an int / numpy float64 / 0-d array
     if case.get('Tk'):
